@@ -9,6 +9,7 @@ right after pysmiles' correct_aromatic_rings (the transcript) and the molecule w
 The property's clauses (theories/Hydro/HydroCheck.v) are evaluated in Coq on the molecule the
 IMPLEMENTATION finally returns."""
 import copy
+import logging
 import random as _random
 
 import networkx as nx
@@ -16,6 +17,8 @@ import networkx as nx
 import common
 import gens
 import lit
+
+logging.getLogger('cgsmiles').setLevel(logging.ERROR)     # the 'H fragment' notice would clutter the check's output
 
 ELEMENTS = set("H B C N O F Na Mg Si P S Cl Br I".split())
 CHARGES = {-2, -1, 0, 1, 2}
